@@ -438,7 +438,8 @@ func Gen(rng *rand.Rand, id int, p Profile) *Corpus {
 				rs := []rune(content)
 				pos := 0
 				for pos < len(rs) && len(d.Syms) < 4 {
-					start := pos + rng.Intn(6)
+					// (adjacent sections, End == next Start, are legal and frequent here)
+					start := pos + []int{0, 0, 0, 1, 2, 4}[rng.Intn(6)]
 					l := 1 + rng.Intn(5)
 					if start+l > len(rs) {
 						break
@@ -448,7 +449,7 @@ func Gen(rng *rand.Rand, id int, p Profile) *Corpus {
 						d.Syms = append(d.Syms, [2]int{start, start + l})
 						d.SymKinds = append(d.SymKinds, []string{"function", "class", "variable"}[rng.Intn(3)])
 					}
-					pos = start + l + rng.Intn(4)
+					pos = start + l + []int{0, 0, 1, 2, 3}[rng.Intn(5)]
 				}
 			}
 			c.Docs = append(c.Docs, d)
